@@ -58,6 +58,8 @@ type raceCtl struct {
 	waiting map[string]*parked
 	arrived chan string
 	active  bool
+	// park the caller before its select only when the schedule asks for it
+	wantsPremain bool
 }
 
 func (c *raceCtl) hit(name string) {
@@ -310,6 +312,11 @@ func raceCase(args []string) string {
 	prober := ice.VerifNewProber(dsock, logger)
 	defer prober.Close()
 	ctl := &raceCtl{waiting: map[string]*parked{}, arrived: make(chan string, 64), active: len(g.Schedule) > 0}
+	for _, st := range g.Schedule {
+		if st == "premain" {
+			ctl.wantsPremain = true
+		}
+	}
 	var emu sync.Mutex
 	established := map[string]bool{} // candidates whose dial returned a connection (they reached the hook behind tr.Dial)
 	verifhook.Set(func(name string, _ []uint64, s string) {
@@ -321,11 +328,15 @@ func raceCase(args []string) string {
 			ctl.hit(addrLabel[s])
 		case "ice.main.got_result":
 			ctl.hit("main")
+		case "ice.main.before_select":
+			if ctl.wantsPremain {
+				ctl.hit("premain")
+			}
 		}
 	})
 	defer verifhook.Set(nil)
 	var umu sync.Mutex
-	var updates []string
+	var updates, failures []string
 	type res struct {
 		conn *quic.Conn
 		err  error
@@ -338,6 +349,9 @@ func raceCase(args []string) string {
 		c, err := prober.ProbeAndDial(callerCtx, cands, quictransport.ClientConfig(), qc, func(u ice.ProbeUpdate) {
 			umu.Lock()
 			updates = append(updates, fmt.Sprintf("%s:%s", addrLabel[u.Addr], u.State))
+			if u.Err != nil && u.State == ice.ProbeStateFailed {
+				failures = append(failures, fmt.Sprintf("%s: %v", addrLabel[u.Addr], u.Err))
+			}
 			umu.Unlock()
 		})
 		resCh <- res{c, err}
@@ -361,6 +375,11 @@ func raceCase(args []string) string {
 		return fin()
 	}
 	out["schedule_done"] = done
+	umu.Lock()
+	if len(failures) > 0 {
+		out["dial_failures"] = failures
+	}
+	umu.Unlock()
 	emu.Lock()
 	var est []string
 	for l := range established {
@@ -440,6 +459,9 @@ func raceSelect(ctx context.Context, g raceSpec, out map[string]any, fin func() 
 	t1 := time.Now()
 	if derr != nil {
 		out["dial_err"] = derr.Error()
+		umu.Lock()
+		out["updates"] = strings.Join(*updates, ",")
+		umu.Unlock()
 		return fin()
 	}
 	out["returned"] = addrLabel[qc.RemoteAddr().String()]
